@@ -162,6 +162,15 @@ def check_props(props_rel, allowed_axioms=()):
 _res = re.compile(r"=\s*\[([^\]]*)\]")
 
 
+def _big_stack():
+    """coqc evaluating a case with a long byte string needs more than the default 8 MB stack"""
+    import resource
+    try:
+        resource.setrlimit(resource.RLIMIT_STACK, (resource.RLIM_INFINITY, resource.RLIM_INFINITY))
+    except (ValueError, OSError):
+        pass
+
+
 def _eval_shard(args):
     run_mod, idx, texts, workdir = args
     name = f"cases_{idx}"
@@ -172,7 +181,7 @@ def _eval_shard(args):
         fh.write(";\n".join(texts))
         fh.write("\n].\nEval vm_compute in (mismatches run cases).\n")
     cmd = ["timeout", "900", "coqc", "-Q", COQ, "EN", "-Q", workdir, "W", "-w", "-all", path]
-    r = subprocess.run(cmd, cwd=workdir, stdout=subprocess.PIPE, stderr=subprocess.STDOUT, text=True)
+    r = subprocess.run(cmd, cwd=workdir, stdout=subprocess.PIPE, stderr=subprocess.STDOUT, text=True, preexec_fn=_big_stack)
     if r.returncode != 0:
         return idx, None, r.stdout[-2000:]
     m = _res.search(r.stdout)
@@ -219,7 +228,7 @@ def eval_one_vm(run_mod, inp, workdir, tag="one"):
         fh.write(f"Eval vm_compute in (run ({sx.to_coq(inp)})).\n")
     cmd = ["timeout", "300", "coqc", "-Q", COQ, "EN", "-w", "-all", path]
     with build_lock(shared=True):
-        r = subprocess.run(cmd, cwd=workdir, stdout=subprocess.PIPE, stderr=subprocess.STDOUT, text=True)
+        r = subprocess.run(cmd, cwd=workdir, stdout=subprocess.PIPE, stderr=subprocess.STDOUT, text=True, preexec_fn=_big_stack)
     raw = r.stdout
     m = re.search(r"=\s*(.*?)\n\s*:\s*sx", raw, re.S)
     if not m:
@@ -257,7 +266,8 @@ def ensure_runner(pid, run_mod):
 def _ml_chunk(args):
     path, inputs = args
     text = "\n".join(sx.to_text(i) for i in inputs) + "\n"
-    r = subprocess.run(["timeout", "900", path], input=text, stdout=subprocess.PIPE, stderr=subprocess.PIPE, text=True)
+    r = subprocess.run(["timeout", "900", path], input=text, stdout=subprocess.PIPE, stderr=subprocess.PIPE, text=True,
+                       preexec_fn=_big_stack)
     if r.returncode != 0:
         return None, r.stderr[-500:]
     lines = [l for l in r.stdout.split("\n") if l.strip()]
